@@ -34,7 +34,7 @@ RULE = ('Depth-1 systems enumerate (package, present chemicals, magnitude patter
         '(call, pair, L/V/LV branch, phases populated, #volatile, light?, heavy?).  Calls that raise a documented exception are '
         'counted as rejected, by kind.')
 ASSUMPTIONS = [
-    'packages: VLE=(Water,Ethanol,Propanol,N2[g-locked],Glucose[s-locked]); SALT=(Water,Ethanol,Propanol,NaCl[l-locked, N_solutes=2],N2[g-locked]); LL=(Water,1-Butanol,Octanol,EthylAcetate,Hexane,Ethanol); '
+    'packages: VLE=(Water,Ethanol,Propanol,N2[g-locked],Glucose[s-locked]); SALT=(Water,Ethanol,Propanol,NaCl[l-locked, N_solutes=2],N2[g-locked]); OVLE=(N2[g],Water,Glucose[s],Ethanol,Propanol) -- the chemicals of VLE with the locked members listed first / in the middle; LL=(Water,1-Butanol,Octanol,EthylAcetate,Hexane,Ethanol); '
     'SLE=(Water,Methanol,Ethanol,Tetradecanol,Glucose); HIS=(Water,Ethanol,Octanol,Tetradecanol,N2[g],Glucose[s])',
     'value grids: T {250,300,350,400,500} K, P {1e4,101325,1e6,5e6} Pa, V {0,0.02,0.5,0.98,1}, H and S at fractions '
     '{-0.1,0,0.3,0.7,1,1.1} between the all-liquid value at the bubble point and the all-vapour value at the dew point '
@@ -143,6 +143,17 @@ VLE_GRID = Grid(
                 (('Water', 'Ethanol', 'Propanol', 'N2', 'Glucose'), 'one', 'alt', ('PS', True, True)),
                 (('Water',), 'one', 'Ls', ('TH', True, True)),
                 (('Water', 'Propanol', 'Glucose'), 'hi0', 'half', ('TS', True, True))])
+
+# ---- same chemicals, other package ORDER: locked gas first, locked solid in the middle, volatile chemicals after them ----------------
+OVLE_IDS = vc.package_ids('OVLE')
+OVLE_GRID = Grid(
+    'OVLE', subsets(OVLE_IDS), ('one', 'lo0', 'hi0'), ('one', 'lo0', 'hi0'),
+    ('l', 'half', 'Ls', 'Sl', 'g'),
+    lambda cfg: vle_calls(n_volatile(cfg[0], cfg[1]) == 2), vle_call_coords,
+    bases=[(('N2', 'Water', 'Glucose', 'Ethanol'), 'one', 'l', ('TP', True, True)),
+           (('Water', 'Ethanol', 'Propanol'), 'lo0', 'half', ('PV', True, True)),
+           (('Ethanol', 'Propanol'), 'hi0', 'Sl', ('PH', True, True))],
+    seed_bases=[(('N2', 'Water'), 'one', 'g', ('TV', True, True)), (('N2', 'Water', 'Glucose', 'Ethanol', 'Propanol'), 'one', 'Ls', ('PS', True, True))])
 
 # ---- VLE grid with a dissociating liquid-locked solute (N_solutes = 2) ---------------------------------------------------------------
 
@@ -327,6 +338,7 @@ def describe_grid(grid):
 
 SYSTEMS = [
     FlashSystem('c03.vle.grid', VLE_GRID.enum_configs, VLE_GRID.enum_actions, oracle, 1, 1, describe=describe_grid(VLE_GRID)),
+    FlashSystem('c03.order.grid', OVLE_GRID.enum_configs, OVLE_GRID.enum_actions, oracle, 1, 1, describe=describe_grid(OVLE_GRID)),
     FlashSystem('c03.salt.grid', SALT_GRID.enum_configs, SALT_GRID.enum_actions, oracle, 1, 1, describe=describe_grid(SALT_GRID)),
     FlashSystem('c03.lle.grid', LLE_GRID.enum_configs, LLE_GRID.enum_actions, oracle, 1, 1, describe=describe_grid(LLE_GRID)),
     FlashSystem('c03.sle.grid', SLE_GRID.enum_configs, SLE_GRID.enum_actions, oracle, 1, 1, describe=describe_grid(SLE_GRID)),
